@@ -346,6 +346,26 @@ def run_property(pid, prop, tier, seed, only=None, jobs=None, replay_only=None):
             results[h["name"]] = r
             solver_s += (r.get("solver_s") or 0) + (r.get("symex_s") or 0)
 
+    # harnesses that ran out of time or memory (typically a loaded machine) get one more chance: fewer in parallel, twice the
+    # time, 30 GB; a verdict is never invented - what still does not finish stays inconclusive
+    retry = [n for n, r in results.items() if r["verdict"] == "inconclusive" and "no failed check" in r.get("reason", "")]
+    if retry and not os.environ.get("VERIF_NO_RETRY"):
+        log("[%s] retrying %d harness(es) that hit the time/memory cap: %s" % (pid, len(retry), ", ".join(retry)))
+        by_flags = {}
+        for n in retry:
+            by_flags.setdefault(tuple(results[n]["flags"]), []).append(n)
+        for gi, (flags, names) in enumerate(by_flags.items()):
+            hm = {h["name"]: h for h in prop["harnesses"]}
+            tmo = 2 * max(hm[n].get("timeout", prop.get("timeout", {}).get(tier, 900)) for n in names)
+            res, logp, wall = run_kani_group(pid, 100 + gi, names, flags, min(4, len(names)), tmo, 30, logdir)
+            for n in names:
+                r = res[n]
+                r["bound"] = results[n].get("bound", "")
+                r["flags"] = list(flags)
+                r["retried"] = True
+                results[n] = r
+                solver_s += (r.get("solver_s") or 0) + (r.get("symex_s") or 0)
+
     # non-kani engines
     for eng in prop.get("engines", []):
         er = eng(tier, seed, logdir)
